@@ -228,6 +228,7 @@ def run(ctx, rep):
                            "an interposable symbol may be defined elsewhere at run time: bypassing the GOT binds the reference to the local definition", nb.file, s["l"])
         rep.floor("interposable-guard", "GOT-dropping relaxation constructions", n, 4)
     _relax_filter(ctx, rep)
+    _tlsdesc_pairing(ctx, rep)
     rep.assume("the instruction bytes matched before a relaxation is chosen (REX.W=1, X=0, B=0) are those new_relaxation tests; runtime values of symbols are not decided")
 
 
@@ -273,3 +274,37 @@ def _relax_filter(ctx, rep):
             ok, why = decide.check_formula(paths, {"relax": relax_atom, "mand": "is_mandatory"}, lambda v: bool(v["relax"] or v["mand"]))
             rep.ob("relax-filter", parent.split("::")[-1], ok, why if ok else why + ": with --no-relax a mandatory rewrite is dropped, or an optional one is applied", c.file, c.line)
     rep.floor("relax-filter", "relaxation filters (layout time, write time)", n, 2)
+
+
+def _tlsdesc_pairing(ctx, rep):
+    """A TLSDESC access is a pair: `lea x@tlsdesc(%rip),%rax` (R_X86_64_GOTPC32_TLSDESC) and `call *x@tlscall(%rax)` (R_X86_64_TLSDESC_CALL). When the lea is
+    rewritten (to local-exec for non-interposable symbols, otherwise to an initial-exec GOT load) the call must be skipped, and vice versa: the call's arm
+    must fire under exactly the conditions under which *some* lea rewrite fires - i.e. those of the weakest one, TlsDescToInitialExec."""
+    import decide
+    F, P = ctx.facts(), ctx.program()
+    rep.rule("tlsdesc-pairing", "in ElfX86_64::new_relaxation the facts guarding RelaxationKind::SkipTlsDescCall equal those guarding TlsDescToInitialExec (the lea rewrite that "
+             "applies whenever any does): the call is dropped exactly when the lea was rewritten")
+    bs = [b for b in F.all_bodies if b.key.endswith("new_relaxation") and "x86_64" in b.key and b.d["kind"] != "Closure"]
+    if not bs:
+        rep.lost("tlsdesc-pairing", "ElfX86_64::new_relaxation")
+        return
+    b = bs[0]
+    guards = {}
+    for bi, blk in enumerate(b.blocks):
+        if blk.get("cleanup"):
+            continue
+        for st in blk["s"]:
+            if st["k"] == "assign" and st["rv"]["k"] == "agg" and str(st["rv"].get("adt") or "").endswith("RelaxationKind") and \
+                    st["rv"].get("variant") in ("SkipTlsDescCall", "TlsDescToInitialExec", "TlsDescToLocalExec"):
+                at = frozenset((str(a[0]), a[1]) for a in decide.atoms_at(P, F, b, bi) if str(a[0]).startswith("call:"))
+                guards.setdefault(st["rv"]["variant"], []).append((at, st.get("l")))
+    if not guards.get("SkipTlsDescCall") or not guards.get("TlsDescToInitialExec"):
+        rep.lost("tlsdesc-pairing", f"constructions of SkipTlsDescCall / TlsDescToInitialExec (found {sorted(guards)})")
+        return
+    skip, ie = guards["SkipTlsDescCall"][0], guards["TlsDescToInitialExec"][0]
+    extra = sorted(skip[0] - ie[0])
+    missing = sorted(ie[0] - skip[0])
+    rep.ob("tlsdesc-pairing", "call-iff-lea", not extra and not missing,
+           f"both arms are guarded by {sorted(skip[0])}" if not extra and not missing else
+           f"the call arm additionally requires {extra} and lacks {missing}: for inputs on which the two differ the lea is rewritten to a GOT/TP-offset load while the "
+           "`call *(%rax)` stays (or the reverse) - the sequence then calls through a TP offset", b.file, skip[1])
